@@ -527,6 +527,45 @@ def dry_null_guard():
     return defn("dry_config_null_guard", "bool", guarded)
 
 
+def group_config_check():
+    """_determine_project_root_for_context (reached by every linter command through get_project_root_from_context):
+    `if config_path and not Path(config_path).exists(): ...; sys.exit(k)` before anything else -> Some k; no such check -> None"""
+    mod = parse(UT)
+    f = find_func(mod, "_determine_project_root_for_context")
+    body = _body(f)
+    found, seen_return = None, False
+    for st in body:
+        if any(isinstance(n, ast.Return) for n in ast.walk(st)):
+            seen_return = True
+        exits = [n for n in ast.walk(st) if isinstance(n, ast.Call) and ast.unparse(n.func) == "sys.exit"]
+        if not exits:
+            continue
+        if not (isinstance(st, ast.If) and not st.orelse and ast.unparse(st.test) == "config_path and (not Path(config_path).exists())"
+                and len(exits) == 1 and isinstance(st.body[-1], ast.Expr) and st.body[-1].value is exits[0]) or seen_return or found is not None:
+            raise Unsupported(f"_determine_project_root_for_context: unexpected exit site {ast.unparse(st)[:80]}")
+        k = const_value(_exit_const(exits[0]))
+        if not isinstance(k, int) or isinstance(k, bool):
+            raise Unsupported("group config check: exit constant")
+        found = k
+    if "config_path = ctx.obj.get('cli_config_path')" not in [ast.unparse(b) for b in body]:
+        raise Unsupported("_determine_project_root_for_context: config_path is no longer the group-level --config")
+    # the chain by which every linter command reaches the check
+    chain = [(UT, "get_project_root_from_context", "_determine_project_root_for_context"),
+             ("src/cli/linters/shared.py", "extract_command_context", "get_project_root_from_context"),
+             ("src/cli/linters/shared.py", "prepare_standard_command", "extract_command_context")]
+    for rel, fn, callee in chain:
+        if callee + "(" not in ast.unparse(find_func(parse(rel), fn)):
+            raise Unsupported(f"{fn} no longer calls {callee}")
+    entry = ("get_project_root_from_context(", "extract_command_context(", "prepare_standard_command(")
+    for m in LINTER_FILES + ["shared"]:
+        rel = f"src/cli/linters/{m}.py"
+        for st in ast.walk(parse(rel)):
+            if isinstance(st, ast.FunctionDef) and any(isinstance(d, ast.Call) and ast.unparse(d.func) == "cli.command" for d in st.decorator_list):
+                if not any(e in ast.unparse(st) for e in entry):
+                    raise Unsupported(f"{rel}: command function {st.name} does not resolve the project root through the shared helpers")
+    return defn("group_config_missing_exit", "option Z", "None" if found is None else f"(Some {zlit(found)})")
+
+
 # ------------------------------------------------------------------ syntax-error violations
 def syntax_defaults():
     """`line=<err>.lineno or K`, `column=<err>.offset or K'` in the syntax-error violation builders"""
@@ -575,5 +614,6 @@ ITEMS = [
     ("cli_exit_table", exit_table),
     ("usage_exit_sites", usage_exits),
     ("dry_config_null_guard", dry_null_guard),
+    ("group_config_missing_exit", group_config_check),
     ("syntax_error_defaults", syntax_defaults),
 ]
